@@ -187,6 +187,28 @@ pub struct SimCore {
     /// First decisions, kept verbatim for replay files.
     pub sched_trace: RefCell<Vec<String>>,
     pub in_root_poll: Cell<bool>,
+    /// Builds in which the runner never goes quiet (with the `tracing` feature its log forwarder wakes
+    /// itself on every poll): `n > 0` makes the executor, before half of its time jumps, keep polling
+    /// until `n` consecutive polls made no progress and report THAT as a quiescent point.
+    pub quiesce_polls: Cell<u32>,
+    /// Tasks of their own next to the root future (spawned helpers): polled when their own waker
+    /// fires, never waking the root by themselves.
+    aux: RefCell<Vec<AuxTask>>,
+}
+
+struct AuxTask {
+    fut: Pin<Box<dyn Future<Output = ()>>>,
+    flag: Arc<AtomicBool>,
+}
+
+struct AuxWake(Arc<AtomicBool>);
+impl Wake for AuxWake {
+    fn wake(self: Arc<Self>) {
+        self.0.store(true, Ordering::SeqCst);
+    }
+    fn wake_by_ref(self: &Arc<Self>) {
+        self.0.store(true, Ordering::SeqCst);
+    }
 }
 
 pub const LABEL_USER: u8 = 0;
@@ -213,7 +235,39 @@ impl SimCore {
             sched_digest: Cell::new(FNV_INIT),
             sched_trace: RefCell::new(Vec::new()),
             in_root_poll: Cell::new(false),
+            quiesce_polls: Cell::new(0),
+            aux: RefCell::new(Vec::new()),
         })
+    }
+
+    /// Spawns a task of its own next to the root future (polled once at the start, then whenever its
+    /// own waker has fired).
+    pub fn spawn_aux(&self, fut: Pin<Box<dyn Future<Output = ()>>>) {
+        self.aux.borrow_mut().push(AuxTask { fut, flag: Arc::new(AtomicBool::new(true)) });
+    }
+
+    fn aux_woken(&self) -> bool {
+        self.aux.borrow().iter().any(|t| t.flag.load(Ordering::SeqCst))
+    }
+
+    /// Polls every auxiliary task whose waker has fired; returns how many were polled.
+    fn poll_aux(&self) -> usize {
+        let mut tasks = std::mem::take(&mut *self.aux.borrow_mut());
+        let mut polled = 0;
+        tasks.retain_mut(|t| {
+            if !t.flag.swap(false, Ordering::SeqCst) {
+                return true;
+            }
+            polled += 1;
+            let waker = Waker::from(Arc::new(AuxWake(Arc::clone(&t.flag))));
+            let mut cx = Context::from_waker(&waker);
+            t.fut.as_mut().poll(&mut cx).is_pending()
+        });
+        // (tasks spawned meanwhile, if any, are kept)
+        let mut cur = self.aux.borrow_mut();
+        tasks.append(&mut cur);
+        *cur = tasks;
+        polled
     }
 
     /// Reads the virtual clock; every read advances it by 1 ns, so all stamps are unique.
@@ -463,7 +517,14 @@ pub struct RunOutcome {
 }
 
 /// Drives `root` to completion under the simulated scheduler.
-pub fn run_root<'a>(
+pub fn run_root<'a>(core: &Rc<SimCore>, root: Pin<Box<dyn Future<Output = ()> + 'a>>, per_poll: &mut dyn FnMut(&PollInfo)) -> RunOutcome {
+    let out = run_root_inner(core, root, per_poll);
+    // (auxiliary tasks hold the core: drop them with the run)
+    core.aux.borrow_mut().clear();
+    out
+}
+
+fn run_root_inner<'a>(
     core: &Rc<SimCore>,
     mut root: Pin<Box<dyn Future<Output = ()> + 'a>>,
     per_poll: &mut dyn FnMut(&PollInfo),
@@ -483,8 +544,20 @@ pub fn run_root<'a>(
     };
     let mut waker = mk_waker(0);
     let mut noprog: u32 = 0;
+    let quiesce = core.quiesce_polls.get();
+    // whether the current stretch of self-woken polls is waited out until it is provably quiet
+    let mut patient = quiesce > 0;
 
     loop {
+        // auxiliary tasks: whenever woken - before the root's poll or, half of the time when the root is
+        // woken as well, after it (next turn)
+        if core.aux_woken() {
+            let defer = flag.load(Ordering::SeqCst) && core.rng.borrow_mut().chance(1, 2);
+            if !defer {
+                let n = core.poll_aux();
+                core.decision(|| format!("aux{n}"), 4, n as u64);
+            }
+        }
         let woken = flag.swap(false, Ordering::SeqCst);
         let mut do_poll = woken;
         if !woken && knobs.spurious_pm > 0 {
@@ -540,20 +613,30 @@ pub fn run_root<'a>(
                 core.stats.borrow_mut().quiescent_points += 1;
             }
             per_poll(&PollInfo { quiescent: !self_woken, finished: false });
-            if polls > POLL_CAP {
+            if polls > POLL_CAP * if quiesce > 0 { 8 } else { 1 } {
                 return RunOutcome { end: RunEnd::PollCap, panic_payload: None };
             }
             if self_woken {
-                if noprog < knobs.busy_k.max(1) {
+                let want = if patient { quiesce.max(knobs.busy_k) } else { knobs.busy_k.max(1) };
+                if noprog < want {
                     continue;
                 }
-                if core.pending_timers() == 0 {
-                    if noprog > LIVELOCK_POLLS {
+                if patient && noprog == want {
+                    // `quiesce` polls in a row changed nothing observable: whatever the runner was going to
+                    // do in reaction to the last event, it has done
+                    core.stats.borrow_mut().quiescent_points += 1;
+                    per_poll(&PollInfo { quiescent: true, finished: false });
+                }
+                if core.pending_timers() == 0 && !core.aux_woken() {
+                    if noprog > LIVELOCK_POLLS.max(4 * quiesce) {
                         return RunOutcome { end: RunEnd::Livelock, panic_payload: None };
                     }
                     continue;
                 }
                 core.stats.borrow_mut().busy_jumps += 1;
+                if quiesce > 0 {
+                    patient = core.rng.borrow_mut().chance(1, 2);
+                }
             }
         }
         // Let simulated time pass: fire 1..=batch timers.
@@ -573,7 +656,7 @@ pub fn run_root<'a>(
         if fired > 1 {
             core.stats.borrow_mut().batched_fires += 1;
         }
-        if fired == 0 && !flag.load(Ordering::SeqCst) {
+        if fired == 0 && !flag.load(Ordering::SeqCst) && !core.aux_woken() {
             return RunOutcome { end: RunEnd::Deadlock, panic_payload: None };
         }
     }
